@@ -16,9 +16,53 @@ open S3db S3db.AList
 
 variable {V : Type}
 
+theorem mem_dedup (k : String) : ∀ ks : List String, k ∈ dedup ks ↔ k ∈ ks
+  | [] => by simp [dedup]
+  | a :: ks => by
+    have ih := mem_dedup k ks
+    unfold dedup
+    by_cases h : a ∈ ks
+    · simp only [h, if_true, List.mem_cons, ih]
+      constructor
+      · exact Or.inr
+      · rintro (e | e)
+        · subst e; exact h
+        · exact e
+    · simp only [h, if_false, List.mem_cons, ih]
+
+/-- `lookup` in a list built by `filterMap` of a function of the key -/
+theorem lookup_filterMap_key {W : Type} (f : String → Option W) (k : String) :
+    ∀ ks : List String,
+      lookup k (ks.filterMap fun k' => (f k').map fun c => (k', c)) = if k ∈ ks then f k else none
+  | [] => by simp
+  | a :: ks => by
+    have ih := lookup_filterMap_key f k ks
+    rw [List.filterMap_cons]
+    cases hf : f a with
+    | none =>
+      simp only [Option.map_none, ih, List.mem_cons]
+      by_cases h : k = a
+      · subst h; simp [hf]
+      · simp [h]
+    | some w =>
+      simp only [Option.map_some, lookup, List.mem_cons]
+      by_cases h : a = k
+      · subst h; simp [hf]
+      · have h' : ¬ k = a := fun e => h e.symm
+        simp [h, h', ih]
+
+theorem mergeCol_none_none (reset : Option Int) : mergeCol (V := V) reset none none = none := rfl
+
 theorem lookup_mergeCols (reset : Option Int) (c1 c2 : AList String (ACol V)) (k : String) :
     lookup k (mergeCols reset c1 c2) = mergeCol reset (lookup k c1) (lookup k c2) := by
-  sorry
+  unfold mergeCols
+  rw [lookup_filterMap_key (fun k => mergeCol reset (lookup k c1) (lookup k c2)) k]
+  by_cases h : k ∈ dedup (keys c1 ++ keys c2)
+  · simp [h]
+  · simp only [h, if_false]
+    rw [mem_dedup, List.mem_append, not_or] at h
+    rw [lookup_eq_none_iff.2 h.1, lookup_eq_none_iff.2 h.2]
+    rfl
 
 /-- the status cell of a row -/
 structure Status where
@@ -33,52 +77,248 @@ def selStatus (x y : Status) : Status := if ¬ (x.dut > y.dut) then y else x
 /-- "distinct times": two different statuses never carry the same time -/
 def StatusR (x y : Status) : Prop := x.dut = y.dut → x = y
 
-theorem statusLaws : Sel.Laws selStatus StatusR := by
-  sorry
+theorem statusLaws : Sel.Laws selStatus StatusR where
+  pick x y := by unfold selStatus; split <;> simp
+  comm x y h := by
+    unfold selStatus
+    by_cases h1 : x.dut > y.dut <;> by_cases h2 : y.dut > x.dut <;>
+      simp only [h1, h2, not_true, not_false_iff, if_true, if_false]
+    · exfalso; omega
+    · exact (h (by omega)).symm
+  assoc x y z _ _ _ := by
+    unfold selStatus
+    by_cases h1 : x.dut > y.dut <;> by_cases h2 : y.dut > z.dut <;> by_cases h3 : x.dut > z.dut <;>
+      simp only [h1, h2, h3, not_true, not_false_iff, if_true, if_false] <;>
+      (exfalso; omega)
 
 def selCol (x y : ACol V) : ACol V := if ¬ (y.t < x.t) then y else x
 def ColR (x y : ACol V) : Prop := x.t = y.t → x = y
 
-theorem colLaws : Sel.Laws (selCol (V := V)) ColR := by
-  sorry
+theorem colLaws : Sel.Laws (selCol (V := V)) ColR where
+  pick x y := by unfold selCol; split <;> simp
+  comm x y h := by
+    unfold selCol
+    by_cases h1 : y.t < x.t <;> by_cases h2 : x.t < y.t <;>
+      simp only [h1, h2, not_true, not_false_iff, if_true, if_false]
+    · exfalso; omega
+    · exact (h (by omega)).symm
+  assoc x y z _ _ _ := by
+    unfold selCol
+    by_cases h1 : y.t < x.t <;> by_cases h2 : z.t < y.t <;> by_cases h3 : z.t < x.t <;>
+      simp only [h1, h2, h3, not_true, not_false_iff, if_true, if_false] <;>
+      (exfalso; omega)
 
 /-- the invariant of rows written through SQL, for the declared non-key columns `S` -/
 def RowInv (S : List String) (r : ARow V) : Prop :=
   (∀ c, lookup c r.cols ≠ none → c ∈ S) ∧
   (r.deleted = false → ∀ c ∈ S, ∃ x, lookup c r.cols = some x ∧ r.dut ≤ x.t)
 
+theorem mergeRows_cols (r1 r2 : ARow V) :
+    (mergeRows r1 r2).cols = mergeCols (status r1 r2).2.2 r1.cols r2.cols := rfl
+theorem mergeRows_deleted (r1 r2 : ARow V) :
+    (mergeRows r1 r2).deleted = if r1.dut > r2.dut then r1.deleted else r2.deleted := by
+  unfold mergeRows status; by_cases h : r1.dut > r2.dut <;> simp [h]
+theorem mergeRows_dut (r1 r2 : ARow V) :
+    (mergeRows r1 r2).dut = if r1.dut > r2.dut then r1.dut else r2.dut := by
+  unfold mergeRows status; by_cases h : r1.dut > r2.dut <;> simp [h]
+
 theorem mergeRows_status (r1 r2 : ARow V) :
     (mergeRows r1 r2).status = selStatus r1.status r2.status := by
-  sorry
+  unfold ARow.status selStatus
+  rw [mergeRows_deleted, mergeRows_dut]
+  by_cases h : r1.dut > r2.dut <;> simp [h]
+
+/-- a reset time only arises when the winner of the status is live, and then it is the winner's
+    insert time -/
+theorem status_reset_some {r1 r2 : ARow V} {d : Int} (h : (status r1 r2).2.2 = some d) :
+    (r2.deleted = false ∧ r2.dut = d ∧ ¬ r1.dut > r2.dut) ∨
+    (r1.deleted = false ∧ r1.dut = d ∧ r1.dut > r2.dut) := by
+  unfold status at h
+  by_cases h0 : r1.dut > r2.dut
+  · right
+    simp only [h0, not_true, if_false] at h
+    cases h1 : r1.deleted <;> cases h2 : r2.deleted <;> simp [h1, h2] at h
+    exact ⟨rfl, h, h0⟩
+  · left
+    simp only [h0, not_false_iff, if_true] at h
+    cases h1 : r1.deleted <;> cases h2 : r2.deleted <;> simp [h1, h2] at h
+    exact ⟨rfl, h, h0⟩
+
+theorem selCol_t_ge_left (x y : ACol V) : x.t ≤ (selCol x y).t := by
+  unfold selCol; split <;> omega
+theorem selCol_t_ge_right (x y : ACol V) : y.t ≤ (selCol x y).t := by
+  unfold selCol; split <;> omega
+
+theorem selOptCol_ge_left {x w : ACol V} {b : Option (ACol V)}
+    (h : Sel.selOpt selCol (some x) b = some w) : x.t ≤ w.t := by
+  cases b with
+  | none => simp at h; subst h; exact Int.le_refl _
+  | some y => simp at h; subst h; exact selCol_t_ge_left x y
+theorem selOptCol_ge_right {y w : ACol V} {a : Option (ACol V)}
+    (h : Sel.selOpt selCol a (some y) = some w) : y.t ≤ w.t := by
+  cases a with
+  | none => simp at h; subst h; exact Int.le_refl _
+  | some x => simp at h; subst h; exact selCol_t_ge_right x y
+
+theorem mergeCol_none (a b : Option (ACol V)) : mergeCol none a b = Sel.selOpt selCol a b := by
+  cases a <;> cases b <;> simp [mergeCol, keep, hide, Sel.selOpt, selCol]
+  split <;> rfl
+
+/-- a reset time that is not later than the selected cell hides nothing -/
+theorem mergeCol_some_of_ge (d : Int) (a b : Option (ACol V))
+    (h : ∀ w, Sel.selOpt selCol a b = some w → d ≤ w.t) :
+    mergeCol (some d) a b = Sel.selOpt selCol a b := by
+  cases a with
+  | none =>
+    cases b with
+    | none => rfl
+    | some y =>
+      have := h y (by simp)
+      have hn : ¬ y.t < d := by omega
+      simp [mergeCol, keep, hide, hn]
+  | some x =>
+    cases b with
+    | none =>
+      have := h x (by simp)
+      have hn : ¬ x.t < d := by omega
+      simp [mergeCol, keep, hide, hn]
+    | some y =>
+      have := h (selCol x y) (by simp)
+      unfold selCol at this
+      simp only [mergeCol, keep, hide, Sel.selOpt_some, selCol]
+      by_cases hyx : y.t < x.t
+      · simp only [hyx, not_true, if_false] at this ⊢
+        have hn : ¬ x.t < d := by omega
+        simp [hn]
+      · simp only [hyx, not_false_iff, if_true] at this ⊢
+        have hn : ¬ y.t < d := by omega
+        simp [hn]
+
+/-- when nothing is hidden (no re-insert over a delete) the columns merge cell-wise, invariant or not -/
+theorem mergeRows_col_nohide (r1 r2 : ARow V) (h : (status r1 r2).2.2 = none) (c : String) :
+    lookup c (mergeRows r1 r2).cols = Sel.selOpt selCol (lookup c r1.cols) (lookup c r2.cols) := by
+  rw [mergeRows_cols, lookup_mergeCols, h, mergeCol_none]
+
+theorem selOpt_ne_none_mem {S : List String} {r1 r2 : ARow V} (h1 : RowInv S r1) (h2 : RowInv S r2)
+    {c : String} (h : Sel.selOpt selCol (lookup c r1.cols) (lookup c r2.cols) ≠ none) : c ∈ S := by
+  by_cases e1 : lookup c r1.cols = none
+  · by_cases e2 : lookup c r2.cols = none
+    · rw [e1, e2] at h; exact absurd rfl h
+    · exact h2.1 c e2
+  · exact h1.1 c e1
 
 theorem mergeRows_col (S : List String) (r1 r2 : ARow V) (h1 : RowInv S r1) (h2 : RowInv S r2) (c : String) :
     lookup c (mergeRows r1 r2).cols = Sel.selOpt selCol (lookup c r1.cols) (lookup c r2.cols) := by
-  sorry
+  cases hs : (status r1 r2).2.2 with
+  | none => exact mergeRows_col_nohide r1 r2 hs c
+  | some d =>
+    rw [mergeRows_cols, lookup_mergeCols, hs]
+    apply mergeCol_some_of_ge
+    intro w hw
+    have hc : c ∈ S := selOpt_ne_none_mem h1 h2 (by rw [hw]; simp)
+    rcases status_reset_some hs with ⟨hl, hd, _⟩ | ⟨hl, hd, _⟩
+    · obtain ⟨x, hx, hle⟩ := h2.2 hl c hc
+      rw [hx] at hw
+      have := selOptCol_ge_right hw
+      omega
+    · obtain ⟨x, hx, hle⟩ := h1.2 hl c hc
+      rw [hx] at hw
+      have := selOptCol_ge_left hw
+      omega
 
 theorem rowInv_mergeRows (S : List String) (r1 r2 : ARow V) (h1 : RowInv S r1) (h2 : RowInv S r2) :
     RowInv S (mergeRows r1 r2) := by
-  sorry
+  constructor
+  · intro c hne
+    rw [mergeRows_col S r1 r2 h1 h2] at hne
+    exact selOpt_ne_none_mem h1 h2 hne
+  · intro hl c hc
+    rw [mergeRows_col S r1 r2 h1 h2, mergeRows_dut]
+    rw [mergeRows_deleted] at hl
+    by_cases h : r1.dut > r2.dut
+    · simp only [h, if_true] at hl ⊢
+      obtain ⟨x, hx, hle⟩ := h1.2 hl c hc
+      rw [hx]
+      cases hy : lookup c r2.cols with
+      | none => exact ⟨x, rfl, hle⟩
+      | some y => exact ⟨selCol x y, rfl, Int.le_trans hle (selCol_t_ge_left x y)⟩
+    · simp only [h, if_false] at hl ⊢
+      obtain ⟨y, hy, hle⟩ := h2.2 hl c hc
+      rw [hy]
+      cases hx : lookup c r1.cols with
+      | none => exact ⟨y, rfl, hle⟩
+      | some x => exact ⟨selCol x y, rfl, Int.le_trans hle (selCol_t_ge_right x y)⟩
 
 /-- without the invariant `MergeRows` is *not* associative: a hand-built triple (not reachable
     through SQL) on which grouping changes the visible columns -/
 theorem mergeRows_not_assoc_without_inv :
     ∃ x y z : ARow Nat, ∃ c : String,
       lookup c (mergeRows (mergeRows x y) z).cols ≠ lookup c (mergeRows x (mergeRows y z)).cols := by
-  sorry
+  refine ⟨{ deleted := true, dut := 5, cols := [] },
+          { deleted := false, dut := 10, cols := [("b", ⟨1, 12⟩)] },
+          { deleted := false, dut := 20, cols := [] }, "b", ?_⟩
+  decide
 
-end S3db.Row
+/-- a cell that survives a selection is not older than the one it was selected against -/
+theorem selStatus_eq_left_le {r y : Status} (h : selStatus r y = r) : y.dut ≤ r.dut := by
+  unfold selStatus at h
+  by_cases h0 : r.dut > y.dut
+  · omega
+  · simp only [h0, not_false_iff, if_true] at h; subst h; exact Int.le_refl _
 
-namespace S3db.Row
-open S3db S3db.AList
-variable {V : Type}
+theorem selCol_eq_left_le {r y : ACol V} (h : selCol r y = r) : y.t ≤ r.t := by
+  unfold selCol at h
+  by_cases h0 : y.t < r.t
+  · omega
+  · simp only [h0, not_false_iff, if_true] at h; subst h; exact Int.le_refl _
 
-/-- when nothing is hidden (no re-insert over a delete) the columns merge cell-wise, invariant or not -/
-theorem mergeRows_col_nohide (r1 r2 : ARow V) (h : (status r1 r2).2.2 = none) (c : String) :
-    lookup c (mergeRows r1 r2).cols = Sel.selOpt selCol (lookup c r1.cols) (lookup c r2.cols) := by
-  sorry
+/-- a cell with an older time loses -/
+theorem selStatus_of_lt {x y : Status} (h : y.dut < x.dut) : selStatus x y = x := by
+  unfold selStatus
+  have : x.dut > y.dut := h
+  simp [this]
+
+theorem selCol_of_lt {x y : ACol V} (h : y.t < x.t) : selCol x y = x := by
+  unfold selCol; simp [h]
+
+/-- a checker for `RowInv` on concrete rows -/
+def rowInvB (S : List String) (r : ARow V) : Bool :=
+  (keys r.cols).all (fun c => decide (c ∈ S)) &&
+  (r.deleted || S.all fun c =>
+    match lookup c r.cols with
+    | some x => decide (r.dut ≤ x.t)
+    | none => false)
+
+theorem rowInv_of_rowInvB {S : List String} {r : ARow V} (h : rowInvB S r = true) : RowInv S r := by
+  unfold rowInvB at h
+  simp only [Bool.and_eq_true, Bool.or_eq_true, List.all_eq_true, decide_eq_true_eq] at h
+  obtain ⟨h1, h2⟩ := h
+  constructor
+  · intro c hne
+    apply h1
+    apply Classical.byContradiction
+    intro hn
+    exact hne (lookup_eq_none_iff.2 hn)
+  · intro hl c hc
+    rcases h2 with h2 | h2
+    · rw [hl] at h2; cases h2
+    · have := h2 c hc
+      cases hx : lookup c r.cols with
+      | none => rw [hx] at this; cases this
+      | some x =>
+        rw [hx] at this
+        exact ⟨x, rfl, by simpa using this⟩
 
 theorem lookup_stamp (when : Int) (vals : AList String V) (c : String) :
     lookup c (Table.stamp when vals) = (lookup c vals).map fun v => ({ v := v, t := when } : ACol V) := by
-  sorry
+  induction vals with
+  | nil => rfl
+  | cons p vals ih =>
+    obtain ⟨a, b⟩ := p
+    unfold Table.stamp at ih ⊢
+    simp only [List.map_cons, lookup]
+    by_cases h : a = c
+    · simp [h]
+    · simp [h, ih]
 
 end S3db.Row
